@@ -186,11 +186,13 @@ def make_tasks(files, ks, N):
 
 def main():
     run = Run("C05", "translation_validation")
-    N = 8 if tier() == "quick" else 11
+    N = 8 if tier() == "quick" else 10
     ks = [1, 2, 3] if tier() == "quick" else [1, 2, 3, 4, 5]
     files = GL.select(P.corpus())
     files = [f for f in files if not read_par(f).is_lalr()]
     random.Random(seed()).shuffle(files)
+    if tier() != "quick":
+        files = [f for f in files if "/gen/gram/" not in f] + [f for f in files if "/gen/gram/" in f][:600]
     tasks, skipped = make_tasks(files, ks, N)
     res = run_pool(tasks)
     programs = accepted = rejected = queries = nontrivial = disagreements = 0
